@@ -719,8 +719,9 @@ func RunServerModel(c *SrvCase, negotiates bool) *ModelResult {
 	r := &ModelResult{Status: "pending"}
 	offerC := intersectStr(cfg.Comp, []string{"none"})
 	offerE := intersectStr(cfg.Enc, capEnc(cfg.Transport))
-	required, _ := NegotiationRequired(cfg)
-	if required {
+	required, switchNeeded := NegotiationRequired(cfg)
+	if required || switchNeeded {
+		// a choice to make, or the one configured encryption is not the one in force: the stage is not optional
 		negotiates = true
 	}
 	if len(offerC) == 0 || len(offerE) == 0 {
